@@ -104,7 +104,7 @@ pub fn run() -> i32 {
     }
     let st = par_units(&ms, |&m, st| {
         for typ in [1, 2] {
-            for t in 1..=6u32 {
+            for t in 1..=(if m <= 40 && tier == Tier::Thorough { 12u32 } else { 6 }) {
                 if m > 5000 && t > 2 {
                     continue;
                 }
@@ -146,7 +146,7 @@ pub fn run() -> i32 {
 
     // G4: rejected parameters
     let mut st = Stats::new();
-    let mut rej = |name: &str, outlen: usize, saltlen: usize, ops: u64, mem: usize, st: &mut Stats| {
+    let rej = |name: &str, outlen: usize, saltlen: usize, ops: u64, mem: usize, st: &mut Stats| {
         for typ in [1, 2] {
             let salt = vec![7u8; saltlen];
             let r = dry(outlen, &pwd8, &salt, ops, mem, typ);
